@@ -308,7 +308,8 @@ PROPS["C14"] = dict(
                "default) under the orbit-minimum identifier of the resulting map, every other coordinate slot untouched; and for ANY "
                "number of vertices: the kernel refines a pure function on images (C14_insertion_refines_pure) which, on an interior "
                "two-dart edge, yields k+1 consecutive segments on both sides glued segment by segment, everything else untouched "
-               "(C14_insertion_inner_segments, by induction over the spare darts; Map2/InsertManyTopo.v))",
+               "(C14_insertion_inner_segments, by induction over the spare darts; Map2/InsertManyTopo.v) and, on a boundary edge, "
+               "k+1 consecutive segments with nothing else changed (C14_insertion_boundary_segments))",
     technique="Coq model of the kernel + correspondence + extracted Coq specification as per-run validator",
     families=[
         Family("kern-insert", "core2", r_kern("insert", 1500, 30000), 1, [(7, "insert_spec", INS_CLASSES)]),
